@@ -18,7 +18,7 @@ StepClauses(st, prev, w, w2, op) ==
     \* "... and equal the original with exactly those transformations applied": for the purely arithmetic domain operations
     \* (no bound that could tie with a sample in floating point) the recorded reference is also compared with the
     \* specification's own state, so a fault inside the shared standalone function does not cancel out of C08
-    Fail(op.k \in {"repeat", "append", "shift_x", "shift_y", "scale_x", "scale_y"}
+    Fail(op.k \in {"repeat", "append", "shift_x", "shift_y", "scale_x", "scale_y", "normalize_x", "normalize_y"}
          /\ ~(SeqOK(st.rx, w2.rx, 20) /\ SeqOK(st.ry, w2.ry, 20)), "C08.reference_is_transformed_original." \o op.k) \cup
     Fail(st.kinds # "ok" \/ Len(st.x) # Len(st.y) \/ ~AllFinite(st.x) \/ ~AllFinite(st.y) \/ ~FStrictlyIncreasing(st.x), "C09.wellformed." \o op.k) \cup
     \* (a caller that writes through get() may be writing into its own array: the constructor keeps float arrays as they are)
